@@ -63,6 +63,7 @@ type chainHist struct {
 	rng     *sim.Rng
 	caseID  int
 	seed    []byte // model of the rolling seed
+	aborted int    // abandoned proposal executions seen so far
 	reqs    uint64 // model of the request count
 	tries   int
 	expCnt  int64
@@ -174,6 +175,10 @@ func (h *chainHist) runBlock(dt time.Duration) bool {
 		return false
 	}
 	h.run.Count("chain:rolling-seed-updates-checked", 1)
+	if n := w.AbortedProposals - h.aborted; n > 0 {
+		h.aborted = w.AbortedProposals
+		h.run.Count("chain:rolling-seed-checked-after-an-abandoned-proposal-execution", n)
+	}
 	if len(resp.TxResults) != len(descs) {
 		h.violate("chain:tx-result-count", fmt.Sprintf("%d tx results for %d txs", len(resp.TxResults), len(descs)))
 		return false
@@ -447,6 +452,9 @@ func chainCase(run *sim.Run, caseID int) {
 	chainID := sim.Pick(rng, []string{"bandchain", "band-laozi-testnet6", "laozi-mainnet", "c09-" + strconv.Itoa(rng.Intn(1000))})
 	w := sim.NewWorld(sim.Config{
 		Seed: rng.U64(), ChainID: chainID, NumVals: nVals, NumUsers: 3, NoInflation: true, ValTokens: tokens,
+		// half of the histories: the node optimistically executes proposals for some heights that are then not decided;
+		// the rolling seed (and so every committee) must be a function of the decided blocks only
+		AbortedProposalPct: []int{0, 40}[caseID%2],
 		Genesis: func(w *sim.World, gs band.GenesisState) {
 			var ds []sim.DataSourceSpec
 			for i := 0; i < 3; i++ {
